@@ -592,6 +592,25 @@ func stackSliceObligations(p *Prog, l *obs) {
 					okLive = true
 				}
 			}
+			// a scan from the top downwards: for i := len(nodes)-1; i >= 0; i-- (every i is below the live size)
+			if ph, isPhi := stripNum(ia.Index).(*ssa.Phi); isPhi && countField < 0 {
+				fromTop, stepsDown := false, false
+				for _, e := range ph.Edges {
+					if bo, isB := stripNum(e).(*ssa.BinOp); isB && bo.Op == token.SUB {
+						if k, isK := constInt(bo.Y); isK && k == 1 {
+							if la := lenArg(bo.X); la != nil && isField(la, sliceField) {
+								fromTop = true
+							}
+							if stripNum(bo.X) == ssa.Value(ph) {
+								stepsDown = true
+							}
+						}
+					}
+				}
+				if fromTop && stepsDown {
+					okLive = true
+				}
+			}
 			// reading the top: nodes[count-1] / nodes[len-1] after the count was tested / decremented is live by construction
 			if bo, isB := stripNum(ia.Index).(*ssa.BinOp); isB && bo.Op == token.SUB {
 				if k, isK := constInt(bo.Y); isK && k == 1 {
@@ -658,9 +677,24 @@ func stackSliceObligations(p *Prog, l *obs) {
 			}
 			return false
 		}
+		// helpers of the stack that cut it back (cutBack(n), truncate(n)) count where they are called
+		shrinkFns := map[*ssa.Function]bool{}
+		for _, g := range libFuncs(p) {
+			if recvTypeName(g) != "stack" || g == fn {
+				continue
+			}
+			allInstrs(g, func(in ssa.Instruction) {
+				if st, ok := in.(*ssa.Store); ok && shrinks(st) {
+					shrinkFns[g] = true
+				}
+			})
+		}
 		shrinkBlocks := map[*ssa.BasicBlock]bool{}
 		allInstrs(fn, func(in ssa.Instruction) {
 			if shrinks(in) {
+				shrinkBlocks[in.Block()] = true
+			}
+			if c, ok := in.(*ssa.Call); ok && c.Common().StaticCallee() != nil && shrinkFns[c.Common().StaticCallee()] {
 				shrinkBlocks[in.Block()] = true
 			}
 		})
